@@ -33,7 +33,7 @@ HBIN = os.path.join(HARNESS, "target", "debug", "harness")
 ALLOWED_AXIOMS = {"propext", "Classical.choice", "Quot.sound"}
 
 sys.path.insert(0, os.path.join(VERIF, "tools"))
-from props import PROPS, PRIMS, TRUSTED_BASE, LOOM  # noqa: E402
+from props import PROPS, PRIMS, TRUSTED_BASE, LOOM, INJECT, INJECT_BUDGET  # noqa: E402
 
 ENV = dict(os.environ, CARGO_NET_OFFLINE="true")
 
@@ -56,6 +56,65 @@ def build_harness():
         shutil.copy(lock_src, lock_dst)
     rc, out, err = sh(["cargo", "build", "--offline"], cwd=HARNESS)
     return rc == 0, (out + err)[-4000:], time.time() - t0
+
+
+ACCEPT = os.path.join(LEAN, ".lake", "build", "bin", "alock-accept")
+IBIN = os.path.join(HARNESS, "target", "debug", "inject")
+
+
+def run_inject(prim, depth, inner, prop):
+    """Preemption injection: the real crate with one call preempted before each of its atomic
+    operations by complete calls of other agents (hook H4), every recorded trace replayed in the
+    acceptor of the atomic-granularity Lean model.  Returns a dict."""
+    os.makedirs(BUILD, exist_ok=True)
+    tag = "%s_%s" % (prop, prim)
+    fv = os.path.join(BUILD, "inject_viol_%s.txt" % tag)
+    fr = os.path.join(BUILD, "inject_rej_%s.txt" % tag)
+    fs = os.path.join(BUILD, "inject_stat_%s.txt" % tag)
+    cmd = ("set -o pipefail; %s %s %d %d 2>%s | tee >(grep ' V:' | head -200 > %s) | %s > %s"
+           % (IBIN, prim, depth, inner, fs, fv, ACCEPT, fr))
+    t0 = time.time()
+    p = subprocess.run(["bash", "-c", cmd], capture_output=True, text=True, env=ENV)
+    # the process substitution may still be flushing
+    time.sleep(0.2)
+    res = {"prim": prim, "depth": depth, "inner": inner, "s": round(time.time() - t0, 1), "rc": p.returncode,
+           "scenarios": 0, "accepted": 0, "rejected": [], "violations": [], "stderr": p.stderr[-2000:]}
+    try:
+        st = open(fs).read()
+        m = re.search(r"scenarios=(\d+) violations=(\d+)", st)
+        if m:
+            res["scenarios"] = int(m.group(1))
+            res["impl_violations"] = int(m.group(2))
+        else:
+            res["stderr"] += st[-2000:]
+    except OSError:
+        pass
+    try:
+        for line in open(fr):
+            line = line.rstrip("\n")
+            m = re.match(r"TOTAL (\d+) accepted (\d+)", line)
+            if m:
+                res["total_seen"] = int(m.group(1))
+                res["accepted"] = int(m.group(2))
+            elif line and len(res["rejected"]) < 50:
+                res["rejected"].append(line)
+    except OSError:
+        pass
+    try:
+        for line in open(fv):
+            hd, _, body = line.rstrip("\n").partition(" | ")
+            toks = body.split(" ")
+            v = [t for t in toks if t.startswith("V:")]
+            res["violations"].append({"header": hd, "key": toks[0], "what": v[0][2:].replace("_", " ") if v else "",
+                                      "trace": body})
+    except OSError:
+        pass
+    for f in (fv, fr, fs):
+        try:
+            os.remove(f)
+        except OSError:
+            pass
+    return res
 
 
 LOOMH = os.path.join(VERIF, "loomh")
@@ -551,6 +610,46 @@ def check(prop, tier, seed):
                                        broken="correspondence %s model <-> implementation" % prim)),
                                        "no-failing-input-found"))
 
+    # 4a. preemption injection on the implementation, every trace replayed in the acceptor of the
+    # atomic-granularity model (the tie of the interleaving theorems to the code's control flow)
+    inj = INJECT.get(prop, [])
+    if inj and ok_h:
+        ok_a, log_a, _ = build_lean(["alock-accept"])
+        cov["preemption_injection"] = {}
+        for prim in inj:
+            obligations += 1
+            if not ok_a:
+                rp = write_replay(prop, "accept_build", {"property": prop, "kind": "correspondence",
+                                  "what": "the acceptor (lean/ALock/Atomic/Accept.lean) no longer builds", "log": log_a})
+                violations.append((rp, "no-failing-input-found"))
+                continue
+            depth, inner = INJECT_BUDGET[tier][prim]
+            r = run_inject(prim, depth, inner, prop)
+            cov["preemption_injection"][prim] = {k: r[k] for k in ("depth", "inner", "scenarios", "accepted", "s")}
+            total_hist += r["scenarios"]
+            mine = [v for v in r["violations"] if prop in re.findall(r"C\d\d", v["what"].split("]")[0])]
+            incomplete = r["rc"] != 0 or r["scenarios"] == 0 or r.get("total_seen") != r["scenarios"]
+            if mine:
+                v = mine[0]
+                hd = v["header"].split()
+                rp = write_replay(prop, "inject_" + prim, {
+                    "property": prop, "kind": "inject", "what": "real crate, one call preempted by hook H4: " + v["what"],
+                    "scenario": v["key"], "trace": v["trace"], "others": len(mine) - 1,
+                    "cmd": "cd harness && cargo build --offline && ./target/debug/inject replay %s %s '%s'" % (prim, hd[2], v["key"])})
+                violations.append((rp, ""))
+            elif r["rejected"] or incomplete:
+                rej = r["rejected"][0] if r["rejected"] else ""
+                rp = write_replay(prop, "accept_" + prim, {
+                    "property": prop, "kind": "correspondence",
+                    "broken": "acceptor %s: a recorded execution of the crate is not a run of the atomic-granularity model "
+                              "(theorem *_accepted no longer applies to it)" % prim,
+                    "first_rejection": rej, "rejections": r["rejected"][:10], "other_property_violations": r["violations"][:3],
+                    "incomplete": incomplete, "stderr": r["stderr"],
+                    "cmd": "cd harness && cargo build --offline && ./target/debug/inject replay %s <param> '<key>' | ../lean/.lake/build/bin/alock-accept" % prim})
+                violations.append((rp, "no-failing-input-found"))
+            else:
+                discharged += 1
+
     # 4b. interleaving / weak-memory search on the implementation (loom): a search aid, not a proof
     scen = LOOM.get(prop, [])
     if scen:
@@ -808,6 +907,18 @@ def replay(path):
         print("scenario %s on /repo's working tree: %s (%.1fs)" % (data["scenario"], "passes" if res[0] else "FAILS", res[1]))
         print(res[2])
         return 0
+    if data.get("kind") == "inject":
+        ok_h, log_h, _ = build_harness()
+        build_lean(["alock-accept"])
+        prim = data["cmd"].split("replay ")[1].split()[0]
+        param = data["cmd"].split("replay ")[1].split()[1]
+        p = subprocess.run([IBIN, "replay", prim, param, data["scenario"]], capture_output=True, text=True, env=ENV)
+        print("trace on /repo's working tree:")
+        print(p.stdout)
+        print("implementation monitor:", p.stderr.strip() or "no violation")
+        _, aout, _ = sh([ACCEPT], inp=p.stdout)
+        print("acceptor (atomic-granularity Lean model):", aout.strip())
+        return 0
     hist = data.get("history")
     if not hist:
         print(json.dumps(data, indent=1)[:4000])
@@ -828,7 +939,7 @@ def replay(path):
 
 
 def setup():
-    ok_l, log_l, dt = build_lean(["ALock", "alock-driver"])
+    ok_l, log_l, dt = build_lean(["ALock", "alock-driver", "alock-accept"])
     print("lean build:", "ok" if ok_l else "FAILED", "%.1fs" % dt)
     if not ok_l:
         print(log_l)
